@@ -743,11 +743,56 @@ func qParseDataset(f []string) (*qDataset, error) {
 	return d, nil
 }
 
+// qQueryFromCase parses the sort / skip / limit part of a Q line (fields: kind, bits, nsort, ...);
+// the filter is left as "predicate omitted"
+func qQueryFromCase(f []string) (*qQuery, error) {
+	q := &qQuery{filter: 4}
+	if len(f) < 3 {
+		return nil, fmt.Errorf("short query line")
+	}
+	ns, _ := strconv.Atoi(f[2])
+	pos := 3
+	if len(f) != 3+3*ns+2 {
+		return nil, fmt.Errorf("malformed query line")
+	}
+	for i := 0; i < ns; i++ {
+		sf := qSortField{col: -1, asc: f[pos+2] == "a"}
+		if f[pos] != "id" {
+			sf.col, _ = strconv.Atoi(f[pos])
+		}
+		q.sort = append(q.sort, sf)
+		pos += 3
+	}
+	if f[pos] != "-" {
+		v, err := strconv.ParseInt(f[pos], 10, 64)
+		if err != nil {
+			return nil, err
+		}
+		q.skip = &v
+	}
+	switch f[pos+1] {
+	case "-":
+	case "none":
+		q.none = true
+	default:
+		v, err := strconv.ParseInt(f[pos+1], 10, 64)
+		if err != nil {
+			return nil, err
+		}
+		q.limit = &v
+	}
+	return q, nil
+}
+
 // qTextFromCase rebuilds a query text for a replayed case: the filter is recovered from the match
 // bits (first catalogue filter producing exactly these bits)
 func qTextFromCase(f []string, d *qDataset) (string, error) {
+	q, err := qQueryFromCase(f)
+	if err != nil {
+		return "", err
+	}
 	bits := f[1]
-	q := &qQuery{filter: -1}
+	q.filter = -1
 	for fi := range qFilters {
 		ok := true
 		for i := range d.rows {
@@ -764,34 +809,6 @@ func qTextFromCase(f []string, d *qDataset) (string, error) {
 	}
 	if q.filter < 0 {
 		return "", fmt.Errorf("no catalogue filter produces match bits %s", bits)
-	}
-	ns, _ := strconv.Atoi(f[2])
-	pos := 3
-	for i := 0; i < ns; i++ {
-		sf := qSortField{col: -1, asc: f[pos+2] == "a"}
-		if f[pos] != "id" {
-			sf.col, _ = strconv.Atoi(f[pos])
-		}
-		q.sort = append(q.sort, sf)
-		pos += 3
-	}
-	if f[pos] != "-" {
-		v, err := strconv.ParseInt(f[pos], 10, 64)
-		if err != nil {
-			return "", err
-		}
-		q.skip = &v
-	}
-	switch f[pos+1] {
-	case "-":
-	case "none":
-		q.none = true
-	default:
-		v, err := strconv.ParseInt(f[pos+1], 10, 64)
-		if err != nil {
-			return "", err
-		}
-		q.limit = &v
 	}
 	return q.text(), nil
 }
